@@ -550,4 +550,37 @@ theorem runSched_length {α : Type} (sched : List Nat) : ∀ (st : PState W α),
   | nil => intro st; rfl
   | cons i is ih => intro st; exact (ih _).trans (pstep_length st i)
 
+/-! ### counters never fall, records are never removed -/
+
+theorem step_mono {α : Type} (p : Prog W α) (reg : Reg W) :
+    reg.nextInn ≤ (p.step reg).2.nextInn ∧ reg.nextNode ≤ (p.step reg).2.nextNode ∧
+    ∃ new, (p.step reg).2.records = reg.records ++ new := by
+  cases p with
+  | done a => exact ⟨Int.le_refl _, Int.le_refl _, [], by simp [Prog.step]⟩
+  | snap k => exact ⟨Int.le_refl _, Int.le_refl _, [], by simp [Prog.step]⟩
+  | nextNode k => exact ⟨Int.le_refl _, by simp only [Prog.step, Reg.nextNodeId]; omega, [], by simp [Prog.step, Reg.nextNodeId]⟩
+  | nextInn k => exact ⟨by simp only [Prog.step, Reg.nextInnovation]; omega, Int.le_refl _, [], by simp [Prog.step, Reg.nextInnovation]⟩
+  | store i k => exact ⟨Int.le_refl _, Int.le_refl _, [i], rfl⟩
+
+theorem pstep_mono {α : Type} (st : PState W α) (i : Nat) :
+    st.reg.nextInn ≤ (pstep st i).reg.nextInn ∧ st.reg.nextNode ≤ (pstep st i).reg.nextNode ∧
+    ∃ new, (pstep st i).reg.records = st.reg.records ++ new := by
+  unfold pstep
+  split
+  · exact ⟨Int.le_refl _, Int.le_refl _, [], by simp⟩
+  · exact step_mono _ _
+
+theorem runSched_mono {α : Type} (sched : List Nat) : ∀ (st : PState W α),
+    st.reg.nextInn ≤ (runSched st sched).reg.nextInn ∧ st.reg.nextNode ≤ (runSched st sched).reg.nextNode ∧
+    ∃ new, (runSched st sched).reg.records = st.reg.records ++ new := by
+  induction sched with
+  | nil => intro st; exact ⟨Int.le_refl _, Int.le_refl _, [], by simp [runSched]⟩
+  | cons i is ih =>
+    intro st
+    obtain ⟨a1, a2, n1, e1⟩ := pstep_mono st i
+    obtain ⟨b1, b2, n2, e2⟩ := ih (pstep st i)
+    refine ⟨Int.le_trans a1 b1, Int.le_trans a2 b2, n1 ++ n2, ?_⟩
+    show (runSched (pstep st i) is).reg.records = _
+    rw [e2, e1, List.append_assoc]
+
 end GoNeat.C16
